@@ -201,9 +201,15 @@ class RefEval:
             if fn is None or len(vs) != 1:
                 raise Ambiguous("function not in reference: " + name)
             try:
-                return fn(vs[0]), units_ref.ZERO
+                fv = fn(vs[0])
             except (ValueError, ZeroDivisionError, OverflowError):
                 raise Ambiguous("function value undefined")
+            if mpmath.isinf(fv) or mpmath.isnan(fv):
+                raise Ambiguous("function value infinite (SymPy: complex infinity for log(0))")   # outside the statement
+            if fv != 0 and abs(fv) < mpmath.mpf(10) ** -25 and abs(vs[0]) > mpmath.mpf(10) ** -15:
+                # cos(-5 pi / 2): exactly zero for SymPy when the argument is symbolic in pi, 1e-51 for a numeric reference
+                raise Ambiguous("zero-ness of a function value at rounding level")
+            return fv, units_ref.ZERO
         if e.free_symbols:
             raise Refuse("symbol")
         if e.is_number:
